@@ -822,7 +822,7 @@ def mk_fn(name, args, kind=None):
         for a in args: uniq[a.keystr()] = a
         args = [uniq[k] for k in sorted(uniq)]
         if len(args) == 1: return args[0]
-        kind = "real"
+        if kind != "pos": kind = "real"
     return X.atom(Atom("fn", name, tuple(args), kind))
 
 
